@@ -32,7 +32,7 @@ CONSTANTS Scripts,   \* <<[host |-> "h1", ops |-> <<"loadp", "update", "demote">
           Modern     \* lock library breaks a dead same-host process' marker and JADE's deliberate (malformed) marker
 
 H == 1..Len(Scripts)
-Ops == {"load", "loadp", "promote", "demote", "update", "jsonly", "cancel"}
+Ops == {"load", "loadp", "promote", "demote", "update", "jsonly", "cancel", "complete"}
 
 VARIABLES cfg, cfgVerF, js, jsVerF,   \* disk
           lock,                        \* "free" | "deliberate" | "dead" (marker of a killed process)
@@ -42,7 +42,7 @@ VARIABLES cfg, cfgVerF, js, jsVerF,   \* disk
 
 vars == <<cfg, cfgVerF, js, jsVerF, lock, deadHost, hd, m, path, elog>>
 None == ""
-NoCfg == [sub |-> None, pay |-> 0, canceled |-> FALSE, ver |-> 0]
+NoCfg == [sub |-> None, pay |-> 0, canceled |-> FALSE, complete |-> FALSE, ver |-> 0]
 NoJs == [pay |-> 0, ver |-> 0]
 
 Feed(lbl, evs) == /\ m' = MonSteps(Scn, m, evs)
@@ -51,7 +51,7 @@ Feed(lbl, evs) == /\ m' = MonSteps(Scn, m, evs)
 
 Init ==
   \* after Cluster.create (versions 1/1) and the creator's demotion (config version 2)
-  /\ cfg = [sub |-> None, pay |-> 0, canceled |-> FALSE, ver |-> 2] /\ cfgVerF = 2
+  /\ cfg = [sub |-> None, pay |-> 0, canceled |-> FALSE, complete |-> FALSE, ver |-> 2] /\ cfgVerF = 2
   /\ js = [pay |-> 0, ver |-> 1] /\ jsVerF = 1
   /\ lock = "free" /\ deadHost = None
   /\ hd = [h \in H |-> [pc |-> 1, loaded |-> FALSE, cfg |-> NoCfg, wcfg |-> NoCfg, js |-> NoJs, role |-> FALSE]]
@@ -94,11 +94,12 @@ CfgTarget(h) ==
   LET c == hd[h].cfg IN
   CASE Op(h) = "promote" -> [c EXCEPT !.sub = Host(h)]
     [] Op(h) = "demote" -> [c EXCEPT !.sub = None]
+    [] Op(h) = "complete" -> [c EXCEPT !.complete = TRUE]      \* mark_complete: the holder sets the flag, then demotes
     [] OTHER -> [c EXCEPT !.canceled = TRUE]
 NumWrites(h) ==
   CASE Op(h) = "load" -> 0
     [] Op(h) = "loadp" -> IF cfg.sub = None /\ cfg.ver = cfgVerF THEN 2 ELSE 0
-    [] Op(h) \in {"promote", "demote", "cancel"} ->
+    [] Op(h) \in {"promote", "demote", "cancel", "complete"} ->
          IF ~hd[h].loaded \/ (Op(h) = "promote" /\ hd[h].cfg.sub # None) \/ (Op(h) = "demote" /\ hd[h].cfg.sub # Host(h)) THEN 0
          ELSE LET r == Ser(h, CfgTarget(h)) IN IF r.exc = "" /\ r.verf # cfgVerF THEN 2 ELSE 0
     [] Op(h) = "jsonly" -> IF hd[h].loaded /\ SerJs(h, [hd[h].js EXCEPT !.pay = @ + 1]).exc = "" THEN 2 ELSE 0
@@ -156,9 +157,10 @@ Load(h, p) ==
             /\ Feed(<<"Load", h>>, <<[EvCop(h, Op(h), "", FALSE, FALSE, FALSE, FALSE) EXCEPT !.hcver = cfg.ver, !.hjver = js.ver]>>)
             /\ Release /\ UNCHANGED <<cfg, cfgVerF, js, jsVerF>>
 
-\* a cfg-only operation on an existing handle: promote_to_submitter / demote_from_submitter / mark_canceled
+\* a cfg-only operation on an existing handle: promote_to_submitter / demote_from_submitter / mark_canceled / mark_complete
+\* (the role is a matter of the submitter field alone: a complete submission with a holder still refuses promotion)
 CfgOp(h) ==
-  /\ hd[h].pc <= Len(Scripts[h].ops) /\ Avail(h) /\ ~Dies(h) /\ Op(h) \in {"promote", "demote", "cancel"} /\ hd[h].loaded
+  /\ hd[h].pc <= Len(Scripts[h].ops) /\ Avail(h) /\ ~Dies(h) /\ Op(h) \in {"promote", "demote", "cancel", "complete"} /\ hd[h].loaded
   /\ ~Skippable(h)
   /\ LET c == hd[h].cfg
          op == Op(h) IN
